@@ -91,6 +91,7 @@ def analyze(scen, r, props):
             _, name, jobid, vpid = e
             if jobid in running:
                 V("C05", "two-bodies-at-once", f"{name}: body started by process {vpid} while process {running[jobid]} is still running it")
+                V("C11", "two-bodies-at-once", f"{name}: body started by process {vpid} while process {running[jobid]} is still running it")
             if jobid in ok_body:
                 V("C05", "rerun-after-success", f"{name}: body started again after it had succeeded")
             running[jobid] = vpid
@@ -197,6 +198,31 @@ def analyze(scen, r, props):
         for d in rec["dups"]:
             if not d.get("after_fail") and not d["same_output"]:
                 V("C05", "duplicate-submission-new-job", f"submitting a configuration identical to {d['of']} returned another output / job: {d}")
+    # C11: over the killed run and the restarted run every successful body ran exactly once, everything ends DONE
+    if "C11" in props and scen.get("restart") and not r.get("hung") and not r.get("main_exc"):
+        starts = {}
+        for e in ev:
+            if e[0] == "body_start":
+                starts[e[1]] = starts.get(e[1], 0) + 1
+        rec = r.get("scripts", {}).get("restart")
+        killed = any(e[0] == "KILL" for e in ev)
+        if rec is not None:
+            for x, j in jobs.items():
+                if all(c == 0 for c in j["codes"]):
+                    n = starts.get(f"j{x}", 0)
+                    if n != 1:
+                        V("C11", f"body-executed-{n}-times", f"j{x}: body executed {n} times over the killed run and the restarted run "
+                          f"(kill at {[e for e in ev if e[0] == 'KILL']})")
+            for var, j in rec["jobs"].items():
+                want = "DONE" if all(c == 0 for c in jobs[j["x"]]["codes"]) else "ERROR"
+                if j["state"] != want:
+                    V("C11", f"restart-final-state:{j['state']}", f"after the restart {var} (j{j['x']}) is {j['state']}, expected {want}")
+        for t in r.get("tokens_end", []):
+            if t["files"]:
+                V("C11", "token-file-left", f"token {t['name']} (process {t['pid']}): files {t['files']} left after the restarted run")
+            if t["available"] != t["total"]:
+                V("C11", "idle-token-not-full", f"token {t['name']} (process {t['pid']}): available {t['available']} != total {t['total']} after the restarted run")
+
     # C09: at quiescence an idle token shows its full capacity (file-based tokens of every live process)
     if not r.get("hung") and not r.get("main_exc"):
         for t in r.get("tokens_end", []):
@@ -219,3 +245,63 @@ def outcome(scen, r):
                       [(x["failed"], x["unfinished"]) for x in rec["xps"]], sorted(rec["tokens"].items(), key=str)))
     order = tuple(e[1] for e in r["events"] if e[0] == "launch")
     return repr((parts, order, tuple(r.get("hung", [])), sorted((r.get("main_exc") or {}).keys())))
+
+
+def analyze_index(scen, r):
+    """C16 oracle: the job index after each run of the history."""
+    out = []
+    fam = scen.get("family", "index")
+
+    def V(clause, msg):
+        out.append(("C16", f"{clause}:{fam}", msg))
+
+    # experiment held by two processes at once?
+    holders = {}
+    for e in r["events"]:
+        if e[0] == "xp_enter":
+            if holders.get(e[1]) not in (None, e[2]):
+                V("experiment-held-twice", f"experiment {e[1]} entered by process {e[2]} while process {holders[e[1]]} holds it")
+            holders[e[1]] = e[2]
+        elif e[0] == "xp_body_end":
+            if holders.get(e[1]) == e[2]:
+                holders[e[1]] = None
+        elif e[0] == "KILL":
+            for k, v in list(holders.items()):
+                if v == e[1]:
+                    holders[k] = None
+    # histories: the scenario lists its runs [{"jobs": [x...], "end": "ok"|"raise"|"kill"}] per script, index snapshots follow each run
+    for tag, runs in (scen.get("history") or {}).items():
+        rec = r.get("scripts", {}).get(tag)
+        if rec is None:
+            continue
+        snaps = rec.get("index", [])
+        ids = {int(e[1][1:]): e[5] for e in r["events"] if e[0] == "state" and e[5]}
+        completed, aborted = set(scen.get("initial_completed", [])), set(scen.get("initial_aborted", []))
+        for i, run in enumerate(runs):
+            if i >= len(snaps):
+                break
+            st = snaps[i]
+            jobs = {x[0] for x in (st["jobs"] or [])}
+            bak = {x[0] for x in (st["jobs.bak"] or [])}
+            S = {ids[x] for x in run["jobs"] if x in ids}
+            orph = st.get("orphans", {})
+            if "error" in orph:
+                V("orphans-command-raises", f"run {i} of {tag}: {orph['error']}")
+                orph = {"listed": []}
+            if run["end"] == "ok":
+                if jobs != S:
+                    V("index-differs-from-plan", f"run {i} ({run}) ended normally; index lists {sorted(jobs)}, submitted {sorted(S)}")
+                bad = [x for x in (st["jobs"] or []) if not (x[1] and x[2])]
+                if bad:
+                    V("index-link-wrong", f"run {i}: links {bad} do not resolve to their job directory")
+                if st["jobs.bak"] is not None:
+                    V("backup-left", f"run {i} ended normally but jobs.bak remains: {sorted(bak)}")
+                completed, aborted = set(S), set()
+            else:
+                aborted |= S
+                if not completed <= (jobs | bak):
+                    V("completed-plan-lost", f"run {i} ({run}) aborted; last completed plan {sorted(completed)} not within jobs {sorted(jobs)} + jobs.bak {sorted(bak)}")
+            listed = set(orph.get("listed", []))
+            if listed & (completed | aborted):
+                V("reported-as-orphan", f"after run {i} ({run}) `orphans` lists {sorted(listed & (completed | aborted))} (completed plan {sorted(completed)}, aborted runs {sorted(aborted)})")
+    return out
